@@ -77,6 +77,57 @@ class ProgProp:
     use_asm = False
     use_tables = False
 
+    def patch_api_cases(self, ctx):
+        """the same streams through the API object of an unlisted patch level of the version (3.10.17, 2.7.99 ...)"""
+        for v in self.versions:
+            pats = ga.jump_patterns(self.tables(ctx, v))[:1] + ga.opcode_sweeps(self.tables(ctx, v))
+            for j, items in enumerate(pats):
+                yield {"k": "asm", "v": v, "items": items, "patch": (17, 99)[j % 2]}
+
+    def judge_patch_api(self, case, ctx, res):
+        """make_std_api((major, minor, unlisted patch)) - asked for after the PyPy flavour of that version - decodes the
+        code like the table of major.minor; API objects kept from earlier cases still decode their own code"""
+        v = case["v"]
+        vt = pd.vt(v)
+        ref = self.reference(case, ctx)
+        x = rw.xd()
+        data = rw.unhx(ref["header"]) + rw.unhx(ref["payload"])
+        co = rw.x_load_bytes(data)[3]
+
+        def row(i):
+            return (i.offset, i.opname, i.arg, "code" if hasattr(i.argval, "co_code") else repr(i.argval))
+        base = [row(i) for i in x.bytecode.Bytecode(co, x.disasm.get_opcode(vt, False))]
+        vi = (vt[0], vt[1], case["patch"])
+        try:
+            try:
+                x.std.make_std_api(vi, "pypy")
+                x.op_imports.get_opcode_module(vi, "pypy")
+            except Exception:
+                pass
+            api = x.std.make_std_api(vi, None)
+            got = [row(i) for i in api.get_instructions(co)]
+        except Exception as e:
+            res.fail("%s|patch-level-api|raised|%s" % (self.id, type(e).__name__), "make_std_api(%r).get_instructions raised %s: %s" % (vi, type(e).__name__, e))
+            return
+        cols = 4 if "argval" in self.aspects else 3
+        if [g[:cols] for g in got] != [b_[:cols] for b_ in base]:
+            k = next((j for j in range(min(len(got), len(base))) if got[j][:cols] != base[j][:cols]), min(len(got), len(base)))
+            res.fail("%s|patch-level-api|stream" % self.id, "make_std_api(%r) decodes %s at row %d where the %s table gives %s" % (
+                vi, got[k:k + 1], k, v, base[k:k + 1]))
+        res.classes.append("patch-level-api")
+        kept = ctx.cache.setdefault("kept_apis", [])
+        for (ovi, oapi, oco, obase) in kept[-6:]:
+            try:
+                again = [row(i) for i in oapi.get_instructions(oco)]
+            except Exception as e:
+                again = "raised %s" % type(e).__name__
+            if again != obase:
+                res.fail("%s|kept-api|stream" % self.id, "the API object made earlier for %r decodes its code differently now that make_std_api(%r) "
+                         "has been called: %s" % (ovi, vi, str(again)[:120]))
+                break
+        if got == base:
+            kept.append((vi, api, co, base))
+
     def table_reference(self, case, ctx):
         """a native code object of NOPs carrying the drawn line / location / exception table"""
         v = case["v"]
